@@ -94,7 +94,8 @@ def chunk_bytes(parts):
         row = []
         for sz in p:
             k += 1
-            row.append((bytes([k]) * sz, k))
+            # values 1..230 (0xf0 / 0xfe mark header and footer); beyond 230 chunks the value repeats, the chunk id does not
+            row.append((bytes([1 + (k - 1) % 230]) * sz, k))
         out.append(row)
     return out
 
